@@ -362,17 +362,23 @@ func newSiDrv() *siDrv {
 }
 
 func (d *siDrv) apply(o opx) []entry {
-	info := &interceptor.StreamInfo{SSRC: uint32(o.Args[0]), ClockRate: 90000} //nolint:gosec
+	ssrc := int64(0)
+	if len(o.Args) > 0 {
+		ssrc = o.Args[0]
+	}
+	info := &interceptor.StreamInfo{SSRC: uint32(ssrc), ClockRate: 90000} //nolint:gosec
 	if o.Op == 1 {
-		if o.Args[0]%2 == 0 {
+		if ssrc%2 == 0 {
 			d.i.BindLocalStream(info, interceptor.RTPWriterFunc(
 				func(*rtp.Header, []byte, interceptor.Attributes) (int, error) { return 0, nil }))
 		} else {
 			d.i.BindRemoteStream(info, interceptor.RTPReaderFunc(
 				func([]byte, interceptor.Attributes) (int, interceptor.Attributes, error) { return 0, nil, nil }))
 		}
+	} else if o.Op == 3 { // Close: recorders are stopped and stay; later binds register nothing
+		_ = d.i.Close()
 	} else {
-		if o.Args[0]%2 == 0 {
+		if ssrc%2 == 0 {
 			d.i.UnbindLocalStream(info)
 		} else {
 			d.i.UnbindRemoteStream(info)
@@ -440,6 +446,30 @@ func siRandCase(r *rand.Rand) c12Case {
 	return c12Case{Comp: compSI, Cfg: []int64{}, Name: "bind-unbind-random", Ops: ops}
 }
 
+// siCloseCase: the interceptor is closed in the middle of the third phase;
+// streams bound afterwards get no recorder, Unbind still releases.
+func siCloseCase(r *rand.Rand) c12Case {
+	ops := phased(r, 4, func(p int, r *rand.Rand) []opx {
+		var o []opx
+		ns := 3 + r.Intn(5)
+		for i := 0; i < 40; i++ {
+			s := int64(1 + r.Intn(ns))
+			if p == 2 && i == 20 {
+				o = append(o, opx{Op: 3, Args: []int64{}, Sample: true})
+			}
+			if r.Intn(5) < 3 {
+				o = append(o, opx{Op: 1, Args: []int64{s}, Sample: true})
+			} else {
+				o = append(o, opx{Op: 2, Args: []int64{s}, Sample: true})
+			}
+		}
+
+		return o
+	})
+
+	return c12Case{Comp: compSI, Cfg: []int64{}, Name: "bind-unbind-close", Ops: ops}
+}
+
 // ---- jitter buffer interceptor ----
 type jbDrv struct {
 	base
@@ -484,6 +514,8 @@ func (d *jbDrv) apply(o opx) []entry {
 		d.next = raw
 		buf := make([]byte, 1500)
 		_, _, _ = d.rd.Read(buf, interceptor.Attributes{})
+	} else if o.Op == 3 { // Close: Clear(true); the reader bound before keeps working
+		_ = d.i.Close()
 	} else {
 		d.i.UnbindRemoteStream(&interceptor.StreamInfo{SSRC: 1})
 		d.bind()
@@ -501,16 +533,16 @@ func (d *jbDrv) close() { _ = d.i.Close() }
 
 func jbCase(r *rand.Rand, kind string, n int) c12Case {
 	c := seqCase(r, compJB, []int64{}, kind, n, 4, 65536, 0, nil)
-	if r.Intn(3) == 0 { // unbind at the end of every phase: per-stream memory released
+	if k := r.Intn(3); k < 2 { // unbind / Close at the end of every phase: per-stream memory released
 		var ops []opx
 		for _, o := range c.Ops {
 			if o.Op == opMark {
-				ops = append(ops, opx{Op: 2, Args: []int64{}, Sample: true})
+				ops = append(ops, opx{Op: int64(2 + k), Args: []int64{}, Sample: true})
 			}
 			ops = append(ops, o)
 		}
 		c.Ops = ops
-		c.Name += "+unbind"
+		c.Name += []string{"+unbind", "+close"}[k]
 	}
 
 	return c
@@ -633,6 +665,7 @@ type lbDrv struct {
 	p       *gcc.LeakyBucketPacer
 	mode    int64
 	written int64
+	closed  bool
 }
 
 func newLbDrv(mode int64) *lbDrv {
@@ -655,12 +688,16 @@ func (d *lbDrv) apply(o opx) []entry {
 	if o.Op == 1 {
 		_, _ = d.p.Write(&rtp.Header{Version: 2, SSRC: 1}, make([]byte, 1000), nil)
 	}
+	if o.Op == 3 { // Close (only in replays: see design note, candidate finding write-after-close)
+		_ = d.p.Close()
+		d.closed = true
+	}
 
 	return one(o)
 }
 func (d *lbDrv) sizes() []int64 { return []int64{int64(gcc.C12QueueLen(d.p))} }
 func (d *lbDrv) phaseEnd() []entry {
-	if d.mode != 1 {
+	if d.mode != 1 || d.closed {
 		return nil
 	}
 	for i := 0; i < 400 && gcc.C12QueueLen(d.p) > 0; i++ {
